@@ -36,6 +36,8 @@ type server struct {
 	respond func(service, method string, req proto.Message) (proto.Message, error)
 	hook    rt.ErrorHook
 	regErr  string
+
+	mockHandlers map[string]rt.Handler // when set, calls are answered by the emitted mock implementation
 }
 
 func newServer(p *rt.Package, withHook bool) *server {
@@ -44,7 +46,11 @@ func newServer(p *rt.Package, withHook bool) *server {
 		s.mu.Lock()
 		s.calls = append(s.calls, seen{service, method, model.Copy(req)})
 		r := s.respond
+		mh := s.mockHandlers[service]
 		s.mu.Unlock()
+		if mh != nil {
+			return mh(ctx, service, method, req)
+		}
 		if r == nil {
 			return nil, fmt.Errorf("no responder installed")
 		}
